@@ -38,10 +38,12 @@ PROPERTY = "C09"
 TECHNIQUE = ("runtime monitoring; algebraic relations between real builds + exact rational slice-membership model "
              "(fractions.Fraction) against SliceIndexedAtoms / get_atoms_in_slices and against built slice means")
 RULE = ("cells 3-8 A wide, height 1.5-14 A, 1-14 atoms of 1-3 elements; slice thickness scalar (1-40 slices, incl. values "
-        "larger than the cell and exact divisors) or sequences of 1-40 values (random, equal steps like 0.1 that drift in a "
+        "larger than the cell, exact divisors, and cell heights 1e-3 ... 1e-12 (relative) above or below a multiple of the "
+        "thickness with atoms in the top sliver) or sequences of 1-40 values (random, equal steps like 0.1 that drift in a "
         "cumulative sum); z positions: interior, exactly on computed edges (numpy cumsum / Python sum / exact rounding, +-1 "
         "ulp), 1e-7 below and above edges, 0, -0.0, the cell height, tiny negatives, displaced by whole cell heights; x, y "
-        "anywhere incl. 0, the cell length and tiny negative rounding artefacts; non-trivial = at least 2 slices and at "
+        "anywhere incl. 0, the cell length and tiny negative rounding artefacts; in 40 % of the cases 1-3 companion atoms of the same or another element stacked on / "
+        "within 0.6 A of / across the lateral boundary from another atom; non-trivial = at least 2 slices and at "
         "least one atom exactly on an interior edge or on a cell face (membership), both subsets non-empty (additivity), "
         "different slice counts (reslice); about half of the additivity / reslice cases use non-default constructor "
         "arguments (parametrization objects with sigmas for all / some / absent elements, custom Quadrature / "
@@ -105,10 +107,20 @@ def _spec(rng):
         u = float(rng.uniform(0.05, 0.95))
         st = height / (n - u) if n > 1 else float(height * rng.uniform(1.0, 3.0))
         return height, float(st)
-    if r < 0.5:
+    if r < 0.45:
         # scalar steps that divide the height "exactly" in decimal but not in binary
         st = float(rng.choice([0.1, 0.2, 0.3, 0.25, 0.5, 0.7, 1.0]))
         return float(st * int(rng.integers(1, 31))), st
+    if r < 0.56:
+        # cell heights at / just above / just below a multiple of the scalar thickness (relaxed or strained cells):
+        # relative offsets 1e-3 ... 1e-12 of both signs, also for a thickness of about the whole cell
+        st = float(rng.choice([0.5, 1.0, 2.0, float(rng.uniform(0.3, 2.5))]))
+        n = int(rng.choice([1, 1, 2, 3, 5, 6, 10, 12, 20, int(rng.integers(1, 31))]))
+        delta = float(rng.choice([-1.0, 1.0]) * 10.0 ** (-float(rng.choice([3, 4, 5, 5, 6, 7, 8, 9, 10, 11, 12,
+                                                                              float(rng.uniform(3, 12))]))))
+        if rng.random() < 0.1:
+            delta = 0.0
+        return float(n * st * (1.0 + delta)), st
     n = int(rng.integers(1, 41))
     if r < 0.65:
         step = float(rng.choice([0.1, 0.2, 0.3, 0.7, 1.1]))
@@ -162,7 +174,16 @@ def _z_values(rng, height, st, natoms, wrap):
             cands = [0.0, -0.0, 1e-7]
             if wrap:
                 cands += [height, -1e-17, -1e-14, -1e-7, float(np.nextafter(height, 0.0)), float(fl[0][-1])]
+            # the top sliver: just below the upper face, and between the last whole multiple of a scalar thickness and
+            # the upper face when the height is slightly more than that multiple
+            cands += [height - 10.0 ** (-k) for k in (4, 5, 6, 7, 8)]
+            if isinstance(st, float):
+                top = round(height / st) * st
+                if height - top > 4e-9:
+                    cands += [top + u * (height - top) for u in (0.1, 0.5, 0.9)] * 2
             z = float(rng.choice(cands))
+            if z >= height - 1e-9 and not wrap:
+                z = height - 1e-6
         else:
             z = float(rng.uniform(0, height))
             while np.abs(allf - z).min() < 1e-6:
@@ -191,8 +212,26 @@ def _cell(rng, height, st, natoms, wrap=True, elements=None):
     cell = [float(rng.uniform(3.0, 8.0)), float(rng.uniform(3.0, 8.0)), height]
     els = [str(e) for e in rng.choice(elements or G.ELEMENTS, size=int(rng.integers(1, 4)), replace=False)]
     zs = _z_values(rng, height, st, natoms, wrap)
-    return {"cell": cell, "symbols": [str(rng.choice(els)) for _ in range(natoms)],
-            "positions": [_xy(rng, cell) + [z] for z in zs]}
+    symbols = [str(rng.choice(els)) for _ in range(natoms)]
+    positions = [_xy(rng, cell) + [z] for z in zs]
+    # coincident / nearly coincident atoms (exactly stacked, a fraction of an Angstrom apart, across the lateral boundary)
+    if rng.random() < 0.4:
+        for _ in range(int(rng.integers(1, 4))):
+            j = int(rng.integers(0, len(positions)))
+            q = list(positions[j])
+            mode = rng.random()
+            if mode < 0.25:
+                pass
+            elif mode < 0.8:
+                q[0] += float(rng.uniform(-0.6, 0.6))
+                q[1] += float(rng.uniform(-0.6, 0.6))
+            else:
+                d = int(rng.integers(0, 2))
+                positions[j][d] = float(rng.uniform(0.0, 0.2))
+                q[d] = float(cell[d] - rng.uniform(0.0, 0.3)) if wrap else float(positions[j][d] + 0.1)
+            positions.append([float(v) for v in q])
+            symbols.append(symbols[j] if rng.random() < 0.7 else str(rng.choice(els)))
+    return {"cell": cell, "symbols": symbols, "positions": positions}
 
 
 def gen(rng, tier):
@@ -266,6 +305,24 @@ def fixed_cases(tier):
                 "cell": {"cell": [4.0, 5.0, 3.0], "symbols": ["Si", "C", "O"],
                          "positions": [[3.0, 2.0, 1.0], [2.0, 4.9, 1.0], [1.0, 1.0, 2.0]]}})
     out.append({"kind": "refuse", "height": 3.0, "slice_thickness": [1.0, 1.0, 1.5], "projection": "infinite"})
+    # cell heights just above / below a multiple of a scalar thickness, with atoms in the top sliver
+    for height, st, zs in ((10.00004, 1.0, [10.00003, 9.5, 0.2, 10.000039]), (9.99996, 1.0, [9.99995, 9.5, 0.2, 9.0]),
+                           (6.00002, 0.5, [6.000015, 6.00001, 3.0]), (6.00002, 2.0, [6.000015, 5.0, 1.0]),
+                           (4.0000000004, 1.0, [3.9999, 1.0]), (0.99999, 1.0, [0.999985, 0.5]), (2.00002, 2.0, [2.000015, 1.0]),
+                           (3.000000003, 3.0, [2.9999, 0.1])):
+        c = {"cell": [4.0, 5.0, height], "symbols": ["Si", "C", "O", "Si"][:len(zs)],
+             "positions": [[1.0 + 0.7 * k, 2.0, z] for k, z in enumerate(zs)]}
+        out.append({"kind": "member", "direct": False, "cell": c, "gpts": [8, 10], "slice_thickness": st, "window": [0, 3]})
+        out.append({"kind": "reslice", "cell": c, "gpts": [8, 10], "slice_thickness": st, "slice_thickness_2": height / 3.5,
+                    "parametrization": "lobato"})
+    # coincident and nearly coincident atoms of one element / two elements in one slice
+    close = {"cell": [4.0, 5.0, 3.0], "symbols": ["Si", "Si", "C", "C", "Au", "Au", "O", "Si", "O", "O"],
+             "positions": [[1.1, 1.2, 0.5], [1.3, 1.45, 0.5], [2.6, 3.1, 0.6], [3.1, 3.4, 0.6], [2.0, 2.0, 1.5], [2.0, 2.0, 1.5],
+                           [0.1, 4.2, 2.5], [3.8, 4.3, 2.5], [3.9, 4.9, 2.4], [0.15, 0.1, 2.4]]}
+    for proj in ("infinite", "finite"):
+        out.append({"kind": "add", "gpts": [8, 10], "slice_thickness": 1.0, "projection": proj, "parametrization": "lobato",
+                    "mode": "random", "labels": [0, 1, 0, 1, 0, 1, 0, 0, 1, 0], "precision": "float64", "cell": close})
+    out.append({"kind": "member", "direct": False, "cell": close, "gpts": [8, 10], "slice_thickness": 1.0, "window": [0, 2]})
     # non-default constructor arguments: sigmas for all / some elements, custom integrators
     mixed = {"cell": [4.0, 5.0, 3.0], "symbols": ["Si", "C", "O", "Si"],
              "positions": [[3.9, 2.0, 1.0], [2.0, 4.9, 1.0], [1.0, 1.0, 2.0], [0.1, 0.1, 2.5]]}
@@ -507,9 +564,7 @@ def check_member(ctx, case):
     ctx.expect(all(t > 0 for t in thick), "thickness-sum", what="positive thicknesses", thickness=list(thick[:5]))
     ctx.expect(abs(total - Fraction(height)) <= max(n, 4) * ulp, "thickness-sum", total=float(total), height=height, slices=n,
                err_ulps=float(abs(total - Fraction(height)) / ulp))
-    if isinstance(st, float):
-        ctx.expect(max(thick) - min(thick) <= 4 * float(ulp), "thickness-sum", what="scalar thickness gives equal slices")
-    else:
+    if not isinstance(st, float):
         ctx.equal(list(thick), [float(v) for v in st], "thickness-sum", what="given sequence is used as is")
 
     if not case["direct"]:
